@@ -51,6 +51,31 @@ func ruleAppTypeDefault(c *Ctx, rule string) {
 				}
 			}
 		}
+		// helper form: prefix := helper(appType) with `if appType == "" { return sts }; return GetAppTypePrefix(appType)`
+		if call, isCall := v.(*ssa.Call); !isPhi && isCall {
+			if h := helperOf(call, nil); h != nil && len(h.Params) >= 1 {
+				empty := guardEdges(h, predEq(func(x ssa.Value) bool { _, isP := unspill(x).(*ssa.Parameter); return isP },
+					func(x ssa.Value) bool { s, ok := constStringVal(x); return ok && s == "" }))
+				allOK := true
+				for _, ret := range returns(h) {
+					rv := retVal(ret, 0)
+					if s, ok := constStringVal(rv); ok && s == sts {
+						if guardedBy(h, ret, empty) {
+							okDef = true
+						} else {
+							allOK = false
+						}
+					} else if isResultOf(rv, 0, utilPkg+".GetAppTypePrefix") {
+						okConv = true
+					} else {
+						allOK = false
+					}
+				}
+				if !allOK {
+					okDef = false
+				}
+			}
+		}
 		c.ob(rule, fn, "appTypePrefix default StatefulsetPrefixKey", ks[0], okDef && okConv,
 			fmt.Sprintf("the prefix given to NewKeyObj is the constant %q on the appType==\"\" edge (found=%v) and GetAppTypePrefix(appType) otherwise (found=%v); a dead store of the default shows up as a missing phi", sts, okDef, okConv))
 		// an unknown/empty prefix is rejected before a key is built
@@ -186,7 +211,7 @@ func ruleKeyCodec(c *Ctx, rule string) {
 	pool, _ := c.constString(utilPkg, "poolPrefix")
 	usesPool := func(fn *ssa.Function) bool {
 		found := false
-		allInstrs(fn, func(in ssa.Instruction) {
+		allInstrsX(fn, func(in ssa.Instruction) { // the constant may be used through a shared same-package helper
 			for _, op := range in.Operands(nil) {
 				if *op != nil {
 					if s, ok := constStringVal(*op); ok && s == pool {
@@ -217,6 +242,11 @@ func ruleKeyCodec(c *Ctx, rule string) {
 		k, _ := constIntVal(call.Common().Args[2])
 		if s == sep && k == 2 {
 			okSplit = true
+		}
+	}
+	for _, call := range calls(pk, "strings.Cut") {
+		if s, _ := constStringVal(call.Common().Args[1]); s == sep {
+			okSplit = true // Cut is SplitN(.., sep, 2)
 		}
 	}
 	c.ob(rule, pk, "pool name is split off with SplitN(.., sep, 2)", nil, okSplit, "the pod part of a pool key is not split further at this point")
